@@ -13,38 +13,6 @@ every cluster history.
 namespace Swim.Cluster
 open Swim.Merge
 
-def nodeAt (w : World) (y : String) : Option Node := w.nodes.find? (·.cfg.self == y)
-
-/-- the single-node operation a cluster step makes its acting node perform (if any) -/
-def nodeOp (w : World) : COp → Option (String × Op)
-  | .deliver x i env =>
-    match w.pool[i]? with
-    | none => none
-    | some (.alive a) => some (x, .alive a false env)
-    | some (.suspect c) => some (x, .suspect c env)
-    | some (.dead c) => some (x, .dead c env)
-    | some (.state s) => some (x, .merge [withEnv s env] env.now)
-  | .snapshot _ => none
-  | .announce x addr port md vsn env =>
-    match nodeAt w x with
-    | none => none
-    | some n =>
-      match lookup n.recs n.cfg.self with
-      | some me => some (x, .update me.addr me.port md me.vsn env)
-      | none => if vsn.length = 6 then some (x, .update addr port md vsn env) else none
-  | .leave x env => some (x, .leave env)
-  | .fire x node ca env => some (x, .fire node ca env)
-  | .reap x => some (x, .reap)
-  | .age x name => some (x, .age name)
-  | .probeFail x t env =>
-    match nodeAt w x with
-    | none => none
-    | some n =>
-      if t == n.cfg.self then none
-      else match lookup n.recs t with
-        | none => none
-        | some r => some (x, .suspect { inc := r.inc, node := t, frm := n.cfg.self } env)
-
 theorem find_map_replace (l : List Node) (x y : String) (n' : Node) (hn' : n'.cfg.self = x) :
     (l.map (fun k => if (k.cfg.self == x) = true then n' else k)).find? (·.cfg.self == y) =
       if x = y then (l.find? (·.cfg.self == x)).map (fun _ => n') else l.find? (·.cfg.self == y) := by
